@@ -337,9 +337,19 @@ def k2_fiber_split(res, tier):
         e.check(isinstance(ss, SeqPtr) and ss.seq is stack.seq and e.is_valid(ss.idx == 0), 'split: the moved frame starts at slot 0 of the child stack')
         e.check(isinstance(fp, SeqPtr) and fp.seq is frames.seq and e.is_valid(fp.idx == 0), 'split: the child frame pointer designates that frame')
         cp = e.path_state.get('copies', [])
-        e.check(len(cp) == 1 and isinstance(cp[0][0], SeqPtr) and cp[0][0].seq is st.stack and e.is_valid(z3.And(cp[0][0].idx == top_start + 1, cp[0][2] == argc))
-                and isinstance(cp[0][1], SeqPtr) and cp[0][1].seq is stack.seq and e.is_valid(cp[0][1].idx == 1),
-                'split: exactly the argc arguments above the callee are copied to slots 1.. of the child')
+        args_only = len(cp) == 1 and isinstance(cp[0][0], SeqPtr) and cp[0][0].seq is st.stack and e.is_valid(z3.And(cp[0][0].idx == top_start + 1, cp[0][2] == argc)) \
+            and isinstance(cp[0][1], SeqPtr) and cp[0][1].seq is stack.seq and e.is_valid(cp[0][1].idx == 1)
+        with_callee = len(cp) == 1 and isinstance(cp[0][0], SeqPtr) and cp[0][0].seq is st.stack and e.is_valid(z3.And(cp[0][0].idx == top_start, cp[0][2] == argc + 1)) \
+            and isinstance(cp[0][1], SeqPtr) and cp[0][1].seq is stack.seq and e.is_valid(cp[0][1].idx == 0)
+        e.check(args_only or with_callee, 'split: exactly the argc arguments above the callee (with or without the callee slot itself) are copied to the same slots of the child')
+        # slot 0 of the launched frame: what the call protocol left in the callee slot (the receiver of a method call, the closure of
+        # a function call); either written directly or covered by the copy
+        from .c07 import _flat
+        covered = len(cp) == 1 and isinstance(cp[0][0], SeqPtr) and e.is_valid(z3.And(cp[0][0].idx == top_start, cp[0][2] == argc + 1)) and e.is_valid(cp[0][1].idx == 0)
+        if not covered:
+            want = _flat(e, st.stack.load(e, top_start))
+            got = _flat(e, e.seq_cell(stack.seq, bv(0, 64)).get(e))
+            e.check(z3.And(*[x == y for x, y in zip(got, want)]), 'split: slot 0 of the launched frame holds the value of the callee slot (the receiver when a method is launched)')
         ptop = st.fiber.f[FW.ix['stack_top']].get(e)
         pfr = st.fiber.f[FW.ix['frames']].get(e)
         pfp = st.fiber.f[FW.ix['frame']].get(e)
@@ -347,13 +357,24 @@ def k2_fiber_split(res, tier):
         e.check(e.is_valid(pfr.len == st.nf - 1), 'split: the parent loses exactly the moved frame')
         e.check(isinstance(pfp, SeqPtr) and e.is_valid(pfp.idx == st.nf - 2), 'split: the parent\'s previous frame is current again')
         return {'fn': 'split', 'frames': st.nf, 'moved': True}
-    _creation_finish(res, e, [r for r in e.explore(path) if not (r.kind == 'ok' and r.info is None)], 'C06.K2:fiber_split:',
-                     dict(kind='lay', source=F29_SRC_LAUNCH, expect_stdout='300\n1\n'))
+    results = [r for r in e.explore(path) if not (r.kind == 'ok' and r.info is None)]
+    for r in results:
+        for lab, ok, info in list(r.checks):
+            if not ok and 'slot 0 of the launched frame' in lab:
+                res.fail('C06.K2:fiber_split:the callee slot of a launched call is replaced by the function',
+                         'Fiber::split writes the bare function into slot 0 of the new fiber instead of the value the call left in the callee slot: '
+                         'launching a method loses the receiver (self is the function object)', info, replay=F37_REPLAY)
+                r.checks.remove((lab, ok, info))
+    _creation_finish(res, e, results, 'C06.K2:fiber_split:', dict(kind='lay', source=F29_SRC_LAUNCH, expect_stdout='300\n1\n'))
 
 
 F29_SRC = 'let x = [' + ', '.join(str(i) for i in range(300)) + '];\nprint(x.len());\n'
 F29_SRC_LAUNCH = ('let done = chan(1);\nfn f() { let x = [' + ', '.join(str(i) for i in range(300)) + ']; print(x.len()); done <- 1; }\n'
                   'launch f();\nprint(<- done);\n')
+
+
+F37_SRC = ('class A { init() { self.v = 3; } m(done) { print(self.v); done <- 1; } }\nlet a = A();\nlet done = chan(1);\nlaunch a.m(done);\nprint(<- done);\n')
+F37_REPLAY = dict(kind='lay', source=F37_SRC, expect_stdout='3\n1\n', bad_re='panicked|Internal Error')
 
 
 def _creation_finish(res, e, results, prefix, replay):
